@@ -13,7 +13,7 @@ from stone.ir import (
     is_alias, is_boolean_type, is_bytes_type, is_float_type, is_integer_type, is_list_type, is_map_type,
     is_nullable_type, is_string_type, is_struct_type, is_timestamp_type, is_union_type, is_void_type,
 )
-from stone.backends.python_helpers import fmt_class
+from stone.backends.python_helpers import fmt_class, fmt_var
 from stone.backends.python_rsrc import stone_validators as bv
 
 from vlib.hx import Skip
@@ -137,7 +137,7 @@ class Gen:
                     continue
                 v, s = self.build(ft, depth + 1)
             try:
-                setattr(inst, f.name, v)
+                setattr(inst, fmt_var(f.name), v)       # Python attribute naming is not the subject here
             except bv.ValidationError:
                 raise Skip('value outside the declared type')
             fields[f.name] = s
@@ -157,7 +157,7 @@ class Gen:
         finally:
             self.level -= 1
         try:
-            inst = self.cls(dt)(f.name, v)
+            inst = self.cls(dt)(fmt_var(f.name), v)
         except bv.ValidationError:
             raise Skip('value outside the declared type')
         return inst, ('union', dt, f.name, s)
